@@ -2,7 +2,7 @@
    GENERATED definitions of Gen.v on the arguments the harness passed to the real Go functions. NO proofs.
    Argument encoding: a bitmask is (size, bytes); a distribution is (fromMs, toMs, bucketNs, size, bytes);
    the fuel of the HasBitsIn loop is the number of bytes + 2. *)
-From Coq Require Import ZArith List.
+From Coq Require Import ZArith List Bool.
 From VLib Require Import GoSem.
 From C14 Require Import GenPrelude Gen.
 Import ListNotations.
@@ -11,6 +11,14 @@ Open Scope Z_scope.
 Definition gen_bm (a : list (list Z)) (i : nat) : go_Bitmask := mk_go_Bitmask (arg a i) (argl a (S i)).
 Definition gen_dist (a : list (list Z)) : go_MIDsDistribution :=
   mk_go_MIDsDistribution (arg a 0) (arg a 1) (arg a 2) (gen_bm a 3).
+
+(* round 2. The predicate handed to BinSearchInRange by the harness is `func(i int) bool { return bits[i-from] != 0 }`
+   (it panics outside the table); the index handed to getLIDsBorders is a table of (MID, RID) pairs compared with
+   the generated seq.LessOrEqual, Len() = its length (a LID outside the table reads (0, 0)). *)
+Definition gen_pred (from : Z) (bits : list Z) : Z -> outcome bool :=
+  fun x => if (x - from <? 0) || (len bits <=? x - from) then Panic else Val (negb (idx bits (x - from) =? 0)).
+Definition gen_index (mids rids : list Z) : ids_index go_ID :=
+  mk_ix go_ID (len mids) (fun lid x => go_seq_LessOrEqual (mk_go_ID (idx mids lid) (idx rids lid)) x).
 
 Definition gen_eval (fn : N) (a : list (list Z)) : gres :=
   match fn with
@@ -22,5 +30,8 @@ Definition gen_eval (fn : N) (a : list (list Z)) : gres :=
   | 6%N => gres_of enc_z (go_seq_MIDsDistribution_midToIndex_run (gen_dist a) (arg a 5))
   | 7%N => gres_of enc_b (go_seq_MIDsDistribution_isUndefined_run (gen_dist a))
   | 8%N => gres_of enc_b (go_seq_MIDsDistribution_IsIntersecting_run (S (S (length (argl a 4)))) (gen_dist a) (arg a 5) (arg a 6))
+  | 9%N => gres_of enc_b (go_seq_LessOrEqual_run (mk_go_ID (arg a 0) (arg a 1)) (mk_go_ID (arg a 2) (arg a 3)))
+  | 10%N => gres_of enc_z (go_util_BinSearchInRange_run (arg a 0) (arg a 1) (gen_pred (arg a 0) (argl a 2)))
+  | 11%N => gres_of enc_zz (go_processor_getLIDsBorders_run (arg a 0) (arg a 1) (gen_index (argl a 2) (argl a 3)))
   | _ => GFuel
   end.
